@@ -60,14 +60,16 @@ Proof. vm_compute. reflexivity. Qed.
 (* ============================================================================================
    Part 2: the request path (Lin/Protocol.v) — queueRequest / propose / one agreed log / apply in
    index order on every replica / Trigger(id, result) on the replica holding the waiter / timeout /
-   restart — is linearizable w.r.t. Lin/Spec.v.
+   restart / the no-op shortcut of setnx, sadd, srem, lpop behind the read-index barrier — is
+   linearizable w.r.t. Lin/Spec.v.
    Hypothesis of every theorem below (a Section variable of Lin/ProtocolProofs.v):
      apply_det : every replica's state machine computes Spec.step, whatever the replica and the
                  request timestamp            (C07's conclusion + the Spec-vs-implementation diff)
    Built into the model: ONE agreed log                                      (C02's conclusion). *)
 From ZV Require Import Lin.Protocol Lin.Route Lin.ProtocolProofs.
 
-(* (4) every history the protocol can produce is linearizable (witness: the log order) *)
+(* (4) every history the protocol can produce is linearizable (witness: the log order, with each locally
+       answered no-op placed after the log prefix its replica had applied) *)
 Theorem C04_protocol_linearizable :
   forall apply_impl : nat -> N -> state -> op -> state * res,
   (forall r ts s o, apply_impl r ts s o = step s o) ->
@@ -76,17 +78,25 @@ Proof. exact protocol_linearizable. Qed.
 Print Assumptions C04_protocol_linearizable.
 
 (* (5) "takes effect exactly once, at a single point between its request and its reply": an acknowledged
-       request is in the log at exactly one position, committed strictly after its invocation and strictly
-       before its reply, and the reply is the specification's reply at that position *)
+       request is EITHER in the log at exactly one position, committed strictly after its invocation and
+       strictly before its reply, with the specification's reply at that position, OR it is a no-op answered
+       locally behind the barrier at a slot k (entries below k committed before the reply, entries from k on
+       after the invocation, the specification's reply in the state after k entries, state unchanged, and
+       the request is not in the log) *)
 Theorem C04_protocol_commit_point :
   forall apply_impl : nat -> N -> state -> op -> state * res,
   (forall r ts s o, apply_impl r ts s o = step s o) ->
   forall g, reachable apply_impl g ->
   forall i h t r, nth_error (g_hist g) i = Some h -> h_ret h = Some (t, r) ->
-  exists p c, nth_error (g_log g) p = Some c /\ cid c = i /\
-              (h_inv h < c_time c)%N /\ (c_time c < t)%N /\
-              r = snd (step (exec (firstn p (g_log g))) (h_op h)) /\
-              (forall q d, nth_error (g_log g) q = Some d -> cid d = i -> q = p).
+  (exists p c, nth_error (g_log g) p = Some c /\ cid c = i /\
+               (h_inv h < c_time c)%N /\ (c_time c < t)%N /\
+               r = snd (step (exec (firstn p (g_log g))) (h_op h)) /\
+               (forall q d, nth_error (g_log g) q = Some d -> cid d = i -> q = p)) \/
+  (exists k, (k <= length (g_log g))%nat /\ (h_inv h < t)%N /\
+             step (exec (firstn k (g_log g))) (h_op h) = (exec (firstn k (g_log g)), r) /\
+             (forall p c, nth_error (g_log g) p = Some c -> (p < k)%nat -> (c_time c < t)%N) /\
+             (forall p c, nth_error (g_log g) p = Some c -> (k <= p)%nat -> (h_inv h < c_time c)%N) /\
+             (forall p c, nth_error (g_log g) p = Some c -> cid c <> i)).
 Proof. exact protocol_commit_point. Qed.
 Print Assumptions C04_protocol_commit_point.
 
@@ -112,7 +122,8 @@ Proof. exact protocol_convergence. Qed.
 Print Assumptions C04_protocol_convergence.
 
 (* (8) the tie to the source tree (generated Lin/Consts.v): every operation of the specification that can
-       change the state is registered as a write command (proposed to the log) with an apply handler *)
+       change the state is registered as a write command (proposed to the log) with an apply handler;
+       the local shortcut replies only where the specification's step is the identity with that reply *)
 Theorem C04_mutating_ops_logged : forall o, mutating o = true ->
   in_list (op_cmd o) logged_cmds = true /\ in_list (op_cmd o) applied_cmds = true /\ in_list (op_cmd o) local_cmds = false.
 Proof. exact mutating_ops_logged. Qed.
@@ -122,14 +133,33 @@ Theorem C04_read_ops_keep_state : forall s o, mutating o = false -> fst (step s 
 Proof. exact read_ops_keep_state. Qed.
 Print Assumptions C04_read_ops_keep_state.
 
-(* (9) what is NOT claimed, and cannot be: plain reads are answered from a replica's local store; with that
-       transition added the protocol has a non-linearizable history (open known finding) *)
-Theorem C04_local_read_refuted : reachable_lr stale_state /\ ~ linearizable (g_hist stale_state).
+Theorem C04_shortcut_is_noop : forall s o r, shortcut s o = Some r -> step s o = (s, r).
+Proof. exact shortcut_step. Qed.
+Print Assumptions C04_shortcut_is_noop.
+
+(* (9) what is NOT claimed, and cannot be. An operation answered from a replica's current local state WITHOUT
+       the barrier gives non-linearizable histories:
+       - plain reads (GET/HGET/LLEN/SCARD...) are still served that way (open known finding);
+       - the no-op shortcuts of SETNX/SADD/SREM/LPOP were, until the fix that put them behind the barrier
+         (the recorded failing history is corpus/C04/lpop-local-shortcut-stale.hist). *)
+Theorem C04_local_read_refuted : reachable_lr stale_read_state /\ ~ linearizable (g_hist stale_read_state).
 Proof. exact local_read_refuted. Qed.
 Print Assumptions C04_local_read_refuted.
 
-(* non-vacuity of (4)-(7): a reachable state with two acknowledged requests handled by different replicas *)
+Theorem C04_unbarriered_shortcut_refuted :
+  reachable_lr stale_shortcut_state /\ ~ linearizable (g_hist stale_shortcut_state).
+Proof. exact unbarriered_shortcut_refuted. Qed.
+Print Assumptions C04_unbarriered_shortcut_refuted.
+
+(* non-vacuity of (4)-(7): a reachable state with two acknowledged requests handled by different replicas,
+   and one where a no-op is answered locally behind the barrier *)
 Example C04_ex_protocol_run :
   reachable demo_apply demo_state /\
   g_hist demo_state = [mkHop OIncr 1 (Some (3, RInt 1%Z)); mkHop OIncr 4 (Some (7, RInt 2%Z))]%N.
 Proof. split; [exact demo_reachable|exact (proj1 demo_history)]. Qed.
+
+Example C04_ex_protocol_local :
+  reachable demo_apply demo_local /\ g_ldone demo_local = [mkD 2 2] /\
+  g_hist demo_local = [mkHop (OLPush 7) 1 (Some (3, RInt 1%Z)); mkHop OLPop 4 (Some (6, RBulk 7%Z));
+                       mkHop OLPop 7 (Some (10, RNil))]%N.
+Proof. split; [exact demo_local_reachable|]. split; [exact (proj1 (proj2 demo_local_history))|exact (proj1 demo_local_history)]. Qed.
